@@ -2276,7 +2276,12 @@ void uv_fs_req_cleanup(uv_fs_t* req) {
     uv__free(req->bufs);
   req->bufs = NULL;
 
-  if (req->fs_type != UV_FS_OPENDIR && req->ptr != &req->statbuf)
+  /* A uv_fs_closedir() request that never ran (cancelled) still points at the
+   * caller's uv_dir_t; it stays open and owned by the caller.
+   */
+  if (req->fs_type != UV_FS_OPENDIR &&
+      req->fs_type != UV_FS_CLOSEDIR &&
+      req->ptr != &req->statbuf)
     uv__free(req->ptr);
   req->ptr = NULL;
 }
